@@ -54,7 +54,7 @@ TOL_QUAD_REL = 1e-8    # flips / transpose / rescale of a quadratic fit [3.2e-11
 TOL_SYM_COM = 1e-10    # x cond [5.3e-15 px]
 TOL_SYM_GAUSS = 1e-6   # point-symmetric input of a Gaussian fit [8.9e-16 px]
 TOL_REL_GAUSS = 1e-4   # flips / transpose of a Gaussian fit [1.6e-7 px (1dg), 2.2e-8 px (2dg)]
-TOL_SCALE_GAUSS = 1e-2  # rescaling, noise-free sources (zero-residual fits) [4.7e-5 px (1dg), 8.3e-7 px (2dg)].  On noisy
+TOL_SCALE_GAUSS = 5e-3  # rescaling, noise-free sources (zero-residual fits) [4.7e-5 px (1dg), 8.3e-7 px (2dg)].  On noisy
                         # sources the end point of the fitter moves with the scale of the data by up to 5.4e-2 px
                         # (2dg, measured): recorded under *_rescale_noisy_source_not_judged, not judged.
 
@@ -132,6 +132,14 @@ class PickyCom:
 # ----------------------------------------------------------------------
 # helpers
 # ----------------------------------------------------------------------
+class _FitBlowUp(Exception):
+    """The least-squares fitter inside centroid_1dg/2dg raised on finite input data."""
+
+    def __init__(self, exc, mag, fn):
+        super().__init__(str(exc))
+        self.mag, self.fn = mag, fn
+
+
 def _call(func, data, _log=None, **kw):
     """Library call with copies of the inputs (C10 is not our business, but a
     mutated input must not corrupt the oracle).  _log (list) receives True when the
@@ -141,7 +149,13 @@ def _call(func, data, _log=None, **kw):
         kw2[k] = v.copy() if isinstance(v, np.ndarray) else v
     with warnings.catch_warnings(record=True) as wl:
         warnings.simplefilter('always')
-        out = np.asarray(func(np.array(data, copy=True), **kw2), dtype=float)
+        try:
+            out = np.asarray(func(np.array(data, copy=True), **kw2), dtype=float)
+        except ValueError as exc:
+            if (getattr(func, '__name__', '') in ('centroid_1dg', 'centroid_2dg') and 'infs or NaNs' in str(exc)
+                    and core.exc_location(exc) is not None):
+                raise _FitBlowUp(exc, _mag_of(data), func.__name__) from exc
+            raise
     if _log is not None:
         _log.append(any(('unsuccessful' in str(w.message)) or ('converge' in str(w.message)) for w in wl))
     return out
@@ -178,6 +192,60 @@ def _garbage(rng, data, mask):
     vals = np.where(rng.random(n) < 0.5, vals, rng.normal(0, 1e3, size=n))
     g[mask] = vals
     return g
+
+
+_DECADES = [(-16, 'lt1e-16'), (-8, '1e-16..1e-8'), (-3, '1e-8..1e-3'), (3, '1e-3..1e3'), (8, '1e3..1e8'),
+            (16, '1e8..1e16'), (999, 'ge1e16')]
+
+
+def _bucket(v):
+    """Decade bucket of a positive magnitude (for the evidence counters)."""
+    if not (v > 0) or not np.isfinite(v):
+        return 'zero_or_nonfinite'
+    lg = math.log10(v)
+    for hi, name in _DECADES:
+        if lg < hi:
+            return name
+    return 'ge1e16'
+
+
+def _wide_factor(rng):
+    """Positive factor spanning ~48 decades: powers of two 2**-80..2**80 (the rescaling itself is then exact)
+    or non-dyadic 1e-24..1e24.  Returns (factor, dyadic)."""
+    if rng.random() < 0.55:
+        return float(2.0 ** int(rng.integers(-80, 81))), True
+    return float(10.0 ** rng.uniform(-24.0, 24.0)), False
+
+
+def _magnitude(case, p_unit=0.45):
+    """Overall magnitude of the generated data: 1 (values of order 1..1000) or a wide factor."""
+    rng = case.rng
+    if rng.random() < p_unit:
+        return 1.0
+    return _wide_factor(rng)[0]
+
+
+def _mag_of(data):
+    a = np.abs(np.asarray(data, float))
+    a = a[np.isfinite(a)]
+    return float(a.max()) if a.size else 0.0
+
+
+def _far(mag, error=None):
+    """Magnitudes at which an iterative fit run on the raw values with ABSOLUTE termination tolerances and
+    unscaled parameters is affected.  Two numbers matter: the magnitude of the data (amplitude parameter vs
+    positions) and the magnitude of data/error (weighted residuals vs the absolute gradient tolerance).
+    Judged band (both inside [1e-3, 1e8]): measured noise-free deviations <= 5e-5 px.  Outside: centroid_1dg/2dg
+    return the initial guess, stall, wander off (hundreds of pixels) or raise - see the known finding."""
+    if not (1e-3 <= mag <= 1e8):
+        return True
+    if error is not None:
+        e = np.asarray(error, float)
+        e = e[np.isfinite(e) & (e > 0)]
+        if e.size:
+            eff = mag / float(np.median(e))
+            return not (1e-3 <= eff <= 1e8)
+    return False
 
 
 def _absdev(case, name, obs, exp):
@@ -224,11 +292,20 @@ def _run_com_def(case):
         bad = rng.random(shape) < 0.15
         data[bad] = rng.choice([np.nan, np.inf, -np.inf], size=int(bad.sum()))
         kind = 'nonfinite'
+    # overall magnitude of the data: the definition does not depend on it
+    mag = _magnitude(case)
+    if mag != 1.0:
+        if np.asarray(data).dtype.kind in 'iu':
+            e = int(round(math.log2(mag))) if mag >= 1 else 0
+            data = data * (2 ** int(min(max(e, 0), 40)))          # integer dtype: exact, no overflow of the sums
+        else:
+            data = data * mag
+    case.note('data_magnitude_' + _bucket(_mag_of(data)))
     mform = str(rng.choice(['none', 'bool', 'int', 'nomask']))
     mask = None
     if mform in ('bool', 'int'):
         mask = rng.random(shape) < rng.choice([0.1, 0.4, 0.8])
-    case.params = dict(fn='centroid_com', shape=list(shape), kind=kind, mask=mform)
+    case.params = dict(fn='centroid_com', shape=list(shape), kind=kind, mask=mform, magnitude=_mag_of(data))
     case.digest = core.arr_digest(data, mask) + 'cd'
     mech = {'cls': case.cls, 'fn': 'centroid_com', 'ndim': len(shape), 'kind': kind}
 
@@ -312,27 +389,57 @@ def _relations(case, func, fname, data, kw, tol, mech, scale_error=True, scale_t
         else:
             exp = base[::-1]
         m = dict(mech, rel=t)
+        if fname.startswith('gauss'):
+            m['far_scale'] = _far(_mag_of(data), kw.get('error'))
+            if not m['far_scale']:
+                _absdev(case, f'{fname}_commutes_with_flip_transpose_moderate_scale', obs, exp)
         _absdev(case, f'{fname}_commutes_with_flip_transpose', obs, exp)
         case.close(obs, exp, f'{fname}_commutes_with_flip_transpose', atol=tol, mech=m, base=base)
         n += 1
-    k = float(rng.choice([2.0, 0.5, 10.0, 1e3, 3.7, 1e-3, 1.0 / 3.0]))
+    if rng.random() < 0.35:
+        k, dyadic = float(rng.choice([2.0, 0.5, 10.0, 1e3, 3.7, 1e-3, 1.0 / 3.0])), False
+        dyadic = k in (2.0, 0.5)
+    else:
+        k, dyadic = _wide_factor(rng)
+    mag0 = _mag_of(data)
+    # keep the product inside the range in which squares of the data cannot overflow/underflow
+    if mag0 > 0 and not (1e-60 < mag0 * k < 1e60):
+        k = 1.0 / k
+    mag1 = mag0 * k
+    case.note('rescale_factor_' + _bucket(k))
+    case.note('rescaled_data_magnitude_' + _bucket(mag1))
     kw2 = dict(kw)
     if 'error' in kw and kw['error'] is not None and scale_error:
-        kw2['error'] = kw['error'] * k
-    obs = _call(func, np.asarray(data, float) * k, _log=log, **kw2)
+        emin = float(np.nanmin(kw['error'])) * k
+        if 1e-28 < emin < 1e60:            # the library clips errors at the absolute value 1e-30 (documented nowhere)
+            kw2['error'] = kw['error'] * k
+        else:
+            scale_error = False
+    ms = dict(mech, rel='scale', pow2=bool(dyadic), err_scaled=bool(scale_error and 'error' in kw2),
+              far_scale=bool(_far(mag0, kw.get('error')) or _far(mag1, kw2.get('error'))))
+    try:
+        obs = _call(func, np.asarray(data, float) * k, _log=log, **kw2)
+    except _FitBlowUp as exc:
+        # the fitter of the library blew up on the rescaled copy of an input it handled
+        case.check(False, f'{fname}_invariant_under_positive_rescale', dict(ms, raised='ValueError'), k=k,
+                   msg=str(exc)[:120], magnitude=mag1)
+        return base, n + 1
     if log[0] or log[-1]:
         case.note('fit_not_converged_relation_not_judged')
         return base, n
     if scale_verdict:
         _absdev(case, f'{fname}_invariant_under_positive_rescale', obs, base)
+        if fname.startswith('gauss') and np.all(np.isfinite(obs)) and np.all(np.isfinite(base)):
+            case.dev(f'{fname}_rescale_abs_px_' + ('far_scale' if ms['far_scale'] else 'moderate_scale'),
+                     float(np.max(np.abs(obs - base))))
         case.close(obs, base, f'{fname}_invariant_under_positive_rescale', atol=tol if scale_tol is None else scale_tol,
-                   mech=dict(mech, rel='scale', pow2=k in (2.0, 0.5),
-                             err_scaled=bool(scale_error and 'error' in kw2)), k=k)
+                   mech=ms, k=k, magnitude_base=mag0, magnitude_scaled=mag1)
         n += 1
     else:
         ok = bool(np.all(np.isfinite(obs) == np.isfinite(base)))
         if ok and np.all(np.isfinite(obs)):
-            case.dev(f'{fname}_rescale_noisy_source_not_judged', float(np.max(np.abs(obs - base))))
+            case.dev(f'{fname}_rescale_noisy_source_not_judged_' + ('far_scale' if ms['far_scale'] else 'moderate_scale'),
+                     float(np.max(np.abs(obs - base))))
         case.note('rescale_on_noisy_gauss_fit_recorded_only')
     return base, n
 
@@ -364,11 +471,14 @@ def _run_com_rel(case):
         data = rng.normal(3.0, 2.0, size=shape)
     else:
         data, _ = _peaked(rng, shape, rng.uniform(0, shape[1] - 1), rng.uniform(0, shape[0] - 1))
+    data = data * _magnitude(case)
+    case.note('data_magnitude_' + _bucket(_mag_of(data)))
     mask = _rand_mask(rng, shape, float(rng.choice([0.05, 0.3]))) if rng.random() < 0.7 else None
     if rng.random() < 0.3:
         bad = rng.random(shape) < 0.05
         data[bad] = np.nan
-    case.params = dict(fn='centroid_com', shape=list(shape), kind=kind, masked=mask is not None)
+    case.params = dict(fn='centroid_com', shape=list(shape), kind=kind, masked=mask is not None,
+                       magnitude=_mag_of(data))
     case.digest = core.arr_digest(data, mask) + 'cr'
     mech = {'cls': case.cls, 'fn': 'centroid_com'}
     _, cond = ref.com_reference(data, mask)
@@ -420,7 +530,10 @@ def _run_quad_exact(case):
     elif surf == 'min':
         lam1, lam2 = -lam1, -lam2
     amp = float(rng.uniform(-10, 1000))
+    mag = _magnitude(case)
+    amp, lam1, lam2 = amp * mag, lam1 * mag, lam2 * mag        # the whole surface scaled; the vertex stays
     data = ref.quadratic_surface(shape, x0, y0, amp, lam1, lam2, float(rng.uniform(0, np.pi)))
+    case.note('data_magnitude_' + _bucket(_mag_of(data)))
     mask = None
     if rng.random() < 0.5:
         mask = _rand_mask(rng, shape, float(rng.choice([0.05, 0.15, 0.35])))
@@ -445,7 +558,7 @@ def _run_quad_exact(case):
     good = np.isfinite(data) & (~mask if mask is not None else True)
     if not good.any():
         case.skip('no usable pixel')
-    case.params = dict(fn='centroid_quadratic', shape=list(shape), surf=surf, vertex=[x0, y0],
+    case.params = dict(fn='centroid_quadratic', shape=list(shape), surf=surf, vertex=[x0, y0], magnitude=_mag_of(data),
                        kw={k: v for k, v in kw.items() if k != 'mask'}, masked=mask is not None)
     case.digest = core.arr_digest(data, mask) + core.digest(['qe', sorted((k, str(v)) for k, v in kw.items() if k != 'mask')])[:6]
     mech = {'cls': case.cls, 'fn': 'centroid_quadratic', 'surf': surf, 'peak_kw': use_peak,
@@ -468,7 +581,7 @@ def _run_quad_exact(case):
         ok = at_vertex or is_nan or extra_ok
         case.check(ok, 'quad_exact_open_outcome_is_vertex_or_nan', mech, obs=obs, vertex=vertex)
 
-    if gap <= 1e-9 * max(1.0, abs(amp)):
+    if gap <= 1e-9 * _mag_of(data):
         case.note('quad_start_tie')
         pix_ok = bool(np.all(obs == np.round(obs))) and (obs[0] in (0, nx - 1) or obs[1] in (0, ny - 1))
         weak(extra_ok=pix_ok)
@@ -560,6 +673,8 @@ def _run_quad_rel(case):
         if rng.random() < 0.5:
             y0 = float(rng.choice([1.0, ny - 2.0]) + rng.uniform(-0.3, 0.3))
     data, amp = _peaked(rng, shape, x0, y0, noise=float(rng.choice([0.0, 0.01, 0.05])))
+    data = data * _magnitude(case)
+    case.note('data_magnitude_' + _bucket(_mag_of(data)))
     mask = None
     if rng.random() < 0.6:
         mask = _rand_mask(rng, shape, float(rng.choice([0.03, 0.1, 0.25])))
@@ -628,11 +743,14 @@ def _run_sym(case):
         cy = float(rng.integers(2 * (ny // 3), 2 * (ny - ny // 3) - 1)) / 2.0
     kind = str(rng.choice(['gauss', 'moffat']))
     data = ref.symmetric_source(rng, shape, cx, cy, kind=kind, perturb=float(rng.choice([0.0, 0.05])))
+    mag = _magnitude(case)
+    data = data * mag                              # exact symmetry is kept (every pixel times the same number)
+    case.note('data_magnitude_' + _bucket(_mag_of(data)))
     _, _, has = ref.mirror_index(shape, cx, cy)
     if fname != 'quadratic':
         data = np.where(has, data, 0.0)            # a source whose every pixel has its mirror image
     if rng.random() < 0.3 and fname in ('com', 'quadratic'):
-        data = data + float(rng.uniform(0, 5)) * has   # symmetric pedestal
+        data = data + float(rng.uniform(0, 5)) * mag * has   # symmetric pedestal
     mask = None
     if rng.random() < 0.5:
         mask = ref.symmetrize_mask(_rand_mask(rng, shape, float(rng.choice([0.03, 0.1]))), cx, cy)
@@ -643,6 +761,8 @@ def _run_sym(case):
     kw = {}
     if fname in ('1dg', '2dg') and rng.random() < 0.5:
         kw['error'] = ref.symmetrize_field(1.0 + rng.uniform(0, 1, size=shape) + 0.05 * np.abs(np.arange(nx) - cx)[None, :], cx, cy)
+        if rng.random() < 0.5:
+            kw['error'] = kw['error'] * mag
     if fname == 'quadratic':
         kw['fit_boxsize'] = fit
     if fname != 'quadratic' and not whole and (fname in ('1dg', '2dg') or rng.random() < 0.5):
@@ -652,7 +772,7 @@ def _run_sym(case):
     if mask is not None:
         kw['mask'] = mask
     case.params = dict(fn=fname, shape=list(shape), centre=[cx, cy], kind=kind, masked=mask is not None,
-                       error='error' in kw)
+                       error='error' in kw, magnitude=_mag_of(data))
     case.digest = core.arr_digest(data, mask, kw.get('error')) + 'sy' + fname
     mech = {'cls': case.cls, 'fn': fname, 'half_pixel_centre': bool((2 * cx) % 2 or (2 * cy) % 2)}
     good = np.isfinite(data) & (~mask if mask is not None else True)
@@ -693,9 +813,12 @@ def _run_sym(case):
             case.note('fit_not_converged_symmetry_not_judged')
             return
         case.nontrivial = True
+        far = _far(_mag_of(data), kw.get('error'))
+        if not far:
+            _absdev(case, f'gauss{fname}_symmetric_source_centre_moderate_scale', obs, centre)
         _absdev(case, f'gauss{fname}_symmetric_source_centre', obs, centre)
         case.close(obs, centre, f'gauss{fname}_symmetric_source_centre', atol=TOL_SYM_GAUSS,
-                   mech=dict(mech, error='error' in kw, masked=mask is not None))
+                   mech=dict(mech, error='error' in kw, masked=mask is not None, far_scale=far))
 
 
 # ----------------------------------------------------------------------
@@ -712,13 +835,17 @@ def _run_gauss_rel(case):
     y0 = float(rng.uniform(ny * 0.3, ny * 0.7))
     noise = float(rng.choice([0.0, 0.0, 0.01, 0.03]))
     data, amp = _peaked(rng, shape, x0, y0, noise=noise)
+    mag = _magnitude(case, p_unit=0.6)
+    data = data * mag
+    case.note('data_magnitude_' + _bucket(_mag_of(data)))
     which = int(rng.integers(0, 3)) if case.tier == 'quick' else 3
     mask = _rand_mask(rng, shape, float(rng.choice([0.03, 0.1]))) if (rng.random() < 0.6 or which in (1, 2)) else None
     kw = {}
     if rng.random() < 0.5:
         yy, xx = np.mgrid[0:ny, 0:nx]
-        kw['error'] = 1.0 + 0.1 * xx + 0.05 * yy + rng.uniform(0, 0.5, size=shape)
-    case.params = dict(fn=fname, shape=list(shape), masked=mask is not None, error='error' in kw)
+        kw['error'] = (1.0 + 0.1 * xx + 0.05 * yy + rng.uniform(0, 0.5, size=shape)) * (mag if rng.random() < 0.7 else 1.0)
+    case.params = dict(fn=fname, shape=list(shape), masked=mask is not None, error='error' in kw,
+                       magnitude=_mag_of(data))
     case.digest = core.arr_digest(data, mask, kw.get('error')) + 'gr' + fname
     mech = {'cls': case.cls, 'fn': fname, 'error': 'error' in kw, 'masked': mask is not None}
     kwm = dict(kw)
@@ -853,11 +980,14 @@ def _run_sources(case):
     mask = None
     if rng.random() < 0.6:
         mask = _rand_mask(rng, data.shape, float(rng.choice([0.02, 0.1, 0.3])))
+    mag = _magnitude(case)
+    data = data * mag
+    case.note('data_magnitude_' + _bucket(_mag_of(data)))
     if rng.random() < 0.2:
         data[rng.random(data.shape) < 0.01] = np.nan
     # error map with gradients and structure: a wrong error cutout changes the answer
     error = (1.0 + rng.uniform(0.02, 0.3) * xx + rng.uniform(0.02, 0.3) * yy
-             + rng.uniform(0, 2.0, size=data.shape))
+             + rng.uniform(0, 2.0, size=data.shape)) * (mag if rng.random() < 0.6 else 1.0)
     extra = {}
     cls = case.cls
     if cls == 'src_com':
@@ -901,7 +1031,7 @@ def _run_sources(case):
                 extra['xpeak'] = float(np.round(xs[k]))
                 extra['ypeak'] = float(np.round(ys[k]))
         else:
-            func, fname = PickyCom(float(rng.uniform(100, 3000))), 'user_picky_callable'
+            func, fname = PickyCom(float(rng.uniform(100, 3000)) * mag), 'user_picky_callable'
             if rng.random() < 0.5:
                 extra['error'] = error
     # drop positions whose cutout is completely masked (documented ValueError)
@@ -926,12 +1056,13 @@ def _run_sources(case):
     base_mech = {'cls': cls, 'fn': fname, 'error_kw': bool(error_kw), 'xypeak_kw': bool(xypeak_kw)}
     case.nontrivial = n >= 2
 
-    def run(xpos, ypos):
+    def run(xpos, ypos, factor=None):
         kw = dict(fkw)
         kw.update({k: (v.copy() if isinstance(v, np.ndarray) else v) for k, v in extra.items()})
+        d_in = data.copy() if factor is None else data * factor
         with warnings.catch_warnings():
             warnings.simplefilter('ignore')
-            xo, yo = centroid_sources(data.copy(), xpos, ypos, mask=None if mask is None else mask.copy(),
+            xo, yo = centroid_sources(d_in, xpos, ypos, mask=None if mask is None else mask.copy(),
                                       centroid_func=func, **kw)
         return np.asarray(xo, float), np.asarray(yo, float)
 
@@ -1009,9 +1140,31 @@ def _run_sources(case):
         x1, y1 = run(float(xp[k]), float(yp[k]))
         judged(np.array([x1[0], y1[0]]), np.array([xo[k], yo[k]]), 'sources_single_equals_batched', mech,
                [run0, (xp[k:k + 1], yp[k:k + 1], (x1, y1))], index=k)
+    # (5) positive rescaling of the image by a power of two (the rescaling is exact, so are centre-of-mass and
+    # least-squares results; the error map, where given, keeps its scale: weights only change by a common factor
+    # for 1/error-weighted functions - judged for the functions that do not use `error`)
+    if fname in ('centroid_com', 'centroid_quadratic', 'user_peakshift') or (fname == 'user_wcom' and not error_kw):
+        kf = float(2.0 ** int(rng.integers(-80, 81)))
+        mag0 = _mag_of(data)
+        if mag0 > 0 and not (1e-60 < mag0 * kf < 1e60):
+            kf = 1.0 / kf
+        case.note('rescale_factor_' + _bucket(kf))
+        case.note('rescaled_data_magnitude_' + _bucket(mag0 * kf))
+        xk, yk = run(xp.copy(), yp.copy(), factor=kf)
+        case.close(np.array([xk, yk]), np.array([xo, yo]), 'sources_invariant_under_power_of_two_rescale',
+                   mech=dict(base_mech, rel='scale'), k=kf, magnitude_base=mag0)
 
 
 def run_case(case):
+    try:
+        _dispatch(case)
+    except _FitBlowUp as exc:
+        case.check(False, 'gauss_fit_raises_on_finite_input',
+                   {'cls': case.cls, 'fn': exc.fn.replace('centroid_', ''), 'raised': 'ValueError',
+                    'far_scale': _far(exc.mag)}, msg=str(exc)[:120], magnitude=exc.mag)
+
+
+def _dispatch(case):
     cls = case.cls
     if cls == 'com_def':
         _run_com_def(case)
